@@ -20,20 +20,20 @@ Proof. repeat split. Qed.
 Lemma same_frame_trans a b c : same_frame a b -> same_frame b c -> same_frame a c.
 Proof. intros (A1 & A2 & A3 & A4) (B1 & B2 & B3 & B4). repeat split; congruence. Qed.
 
-Lemma rec_loop_restores n : forall frame rz size s o s' ok,
-  rec_loop n frame rz size s = (o, s', ok) -> o <> OFault -> same_frame s s'.
+Lemma rec_loop_restores gd n : forall frame rz size s o s' ok,
+  rec_loop gd n frame rz size s = (o, s', ok) -> o <> OFault -> same_frame s s'.
 Proof.
   induction n as [|n IH]; intros frame rz size s o s' ok H Hnf; cbn [rec_loop] in H.
   - injection H as <- <- <-. apply same_frame_refl.
-  - destruct (code_enough s rz) as [[|]|].
+  - destruct (code_enough gd s rz) as [[|]|].
     + destruct (m_sp (set_sp s (m_sp s - frame)) <? _); [injection H as <- <- <-; contradiction|].
-      destruct (rec_loop n frame rz size (set_sp s (m_sp s - frame))) as [[o2 s2] ok2] eqn:E.
+      destruct (rec_loop gd n frame rz size (set_sp s (m_sp s - frame))) as [[o2 s2] ok2] eqn:E.
       assert (Hs : o2 <> OFault -> same_frame (set_sp s (m_sp s - frame)) s2) by (intros Hn; eapply IH; eauto).
       destruct o2; injection H as <- <- <-; try contradiction;
         destruct Hs as (A1 & A2 & A3 & A4); try discriminate; repeat split; cbn; assumption.
     + set (s0 := push_seg s (alloc s size)) in *.
       destruct (m_sp (set_sp s0 (m_sp s0 - frame)) <? _); [injection H as <- <- <-; contradiction|].
-      destruct (rec_loop n frame rz size (set_sp s0 (m_sp s0 - frame))) as [[o2 s2] ok2] eqn:E.
+      destruct (rec_loop gd n frame rz size (set_sp s0 (m_sp s0 - frame))) as [[o2 s2] ok2] eqn:E.
       assert (Hs : o2 <> OFault -> same_frame (set_sp s0 (m_sp s0 - frame)) s2) by (intros Hn; eapply IH; eauto).
       destruct o2; injection H as <- <- <-; try contradiction;
         destruct Hs as (A1 & A2 & A3 & A4); try discriminate; repeat split; cbn [pop_seg m_base m_grown m_rec m_sp];
@@ -41,8 +41,8 @@ Proof.
     + injection H as <- <- <-. apply same_frame_refl.
 Qed.
 
-Lemma exec_restores c : forall p s o s' ev,
-  exec c p s = (o, s', ev) -> o <> OFault -> same_frame s s'.
+Lemma exec_restores gd c : forall p s o s' ev,
+  exec gd c p s = (o, s', ev) -> o <> OFault -> same_frame s s'.
 Proof.
   induction p as [|rem body IHb next IHn|rz size v body IHb next IHn| |body IHb next IHn|next IHn|n frame rz size next IHn];
     intros s o s' ev H Hnf; cbn [exec] in H.
@@ -50,50 +50,50 @@ Proof.
   - set (s1 := if g_lim (cur_seg s) + rem <? m_sp s then set_sp s (g_lim (cur_seg s) + rem) else s) in *.
     assert (H1 : m_base s1 = m_base s /\ m_grown s1 = m_grown s /\ m_rec s1 = m_rec s)
       by (unfold s1; destruct (_ <? _); repeat split).
-    destruct (exec c body s1) as [[o2 s2] ev2] eqn:E2.
+    destruct (exec gd c body s1) as [[o2 s2] ev2] eqn:E2.
     assert (Hb : o2 <> OFault -> same_frame s1 s2) by (intros Hn; eapply IHb; eauto).
     destruct o2.
-    + destruct (exec c next (set_sp s2 (m_sp s))) as [[o3 s3] ev3] eqn:E3. injection H as <- <- <-.
+    + destruct (exec gd c next (set_sp s2 (m_sp s))) as [[o3 s3] ev3] eqn:E3. injection H as <- <- <-.
       specialize (IHn _ _ _ _ E3 Hnf). destruct (Hb ltac:(discriminate)) as (A1 & A2 & A3 & A4).
       destruct H1 as (B1 & B2 & B3). eapply same_frame_trans; [|exact IHn].
       repeat split; cbn [set_sp m_base m_grown m_rec m_sp]; congruence.
     + injection H as <- <- <-. destruct (Hb ltac:(discriminate)) as (A1 & A2 & A3 & A4).
       destruct H1 as (B1 & B2 & B3). repeat split; cbn [set_sp m_base m_grown m_rec m_sp]; congruence.
     + injection H as <- <- <-. contradiction.
-  - destruct (code_enough s rz) as [[|]|].
-    + destruct (exec c body s) as [[o2 s2] ev2] eqn:E2.
+  - destruct (code_enough gd s rz) as [[|]|].
+    + destruct (exec gd c body s) as [[o2 s2] ev2] eqn:E2.
       assert (Hb : o2 <> OFault -> same_frame s s2) by (intros Hn; eapply IHb; eauto).
       destruct o2.
-      * destruct (exec c next s2) as [[o3 s3] ev3] eqn:E3. injection H as <- <- <-.
+      * destruct (exec gd c next s2) as [[o3 s3] ev3] eqn:E3. injection H as <- <- <-.
         eapply same_frame_trans; [apply Hb; discriminate | eapply IHn; eauto].
       * injection H as <- <- <-. apply Hb. discriminate.
       * injection H as <- <- <-. contradiction.
     + set (s1 := push_seg s (alloc s size)) in *.
-      destruct (exec c body s1) as [[o2 s2] ev2] eqn:E2.
+      destruct (exec gd c body s1) as [[o2 s2] ev2] eqn:E2.
       assert (Hb : o2 <> OFault -> same_frame s1 s2) by (intros Hn; eapply IHb; eauto).
       assert (Hpop : o2 <> OFault -> same_frame s (pop_seg s2 (m_sp s))).
       { intros Hn. destruct (Hb Hn) as (A1 & A2 & A3 & A4).
         repeat split; cbn [pop_seg m_base m_grown m_rec m_sp]; try rewrite A1; try rewrite A2; try rewrite A3; reflexivity. }
       destruct o2.
-      * destruct (exec c next (pop_seg s2 (m_sp s))) as [[o3 s3] ev3] eqn:E3. injection H as <- <- <-.
+      * destruct (exec gd c next (pop_seg s2 (m_sp s))) as [[o3 s3] ev3] eqn:E3. injection H as <- <- <-.
         eapply same_frame_trans; [apply Hpop; discriminate | eapply IHn; eauto].
       * injection H as <- <- <-. apply Hpop. discriminate.
       * injection H as <- <- <-. contradiction.
     + injection H as <- <- <-. apply same_frame_refl.
   - injection H as <- <- <-. apply same_frame_refl.
-  - destruct (exec c body s) as [[o2 s2] ev2] eqn:E2.
+  - destruct (exec gd c body s) as [[o2 s2] ev2] eqn:E2.
     assert (Hb : o2 <> OFault -> same_frame s s2) by (intros Hn; eapply IHb; eauto).
     destruct o2.
-    + destruct (exec c next s2) as [[o3 s3] ev3] eqn:E3. injection H as <- <- <-.
+    + destruct (exec gd c next s2) as [[o3 s3] ev3] eqn:E3. injection H as <- <- <-.
       eapply same_frame_trans; [apply Hb; discriminate | eapply IHn; eauto].
-    + destruct (exec c next s2) as [[o3 s3] ev3] eqn:E3. injection H as <- <- <-.
+    + destruct (exec gd c next s2) as [[o3 s3] ev3] eqn:E3. injection H as <- <- <-.
       eapply same_frame_trans; [apply Hb; discriminate | eapply IHn; eauto].
     + injection H as <- <- <-. contradiction.
-  - destruct (exec c next s) as [[o3 s3] ev3] eqn:E3. injection H as <- <- <-. eapply IHn; eauto.
-  - destruct (rec_loop n frame rz size s) as [[o2 s2] ok2] eqn:E2.
+  - destruct (exec gd c next s) as [[o3 s3] ev3] eqn:E3. injection H as <- <- <-. eapply IHn; eauto.
+  - destruct (rec_loop gd n frame rz size s) as [[o2 s2] ok2] eqn:E2.
     assert (Hb : o2 <> OFault -> same_frame s s2) by (intros Hn; eapply rec_loop_restores; eauto).
     destruct o2.
-    + destruct (exec c next s2) as [[o3 s3] ev3] eqn:E3. injection H as <- <- <-.
+    + destruct (exec gd c next s2) as [[o3 s3] ev3] eqn:E3. injection H as <- <- <-.
       eapply same_frame_trans; [apply Hb; discriminate | eapply IHn; eauto].
     + injection H as <- <- <-. apply Hb. discriminate.
     + injection H as <- <- <-. contradiction.
@@ -122,15 +122,16 @@ Qed.
 
 (** under [Good] the code's decision is about the segment really in use *)
 Lemma code_enough_good c s rz : Good c s ->
-  code_enough s rz =
+  code_enough GUARD s rz =
   Some (match c, m_grown s with
         | CThread, [] => false
-        | _, _ => rz <=? m_sp s - g_lim (cur_seg s)
+        | _, _ => rz <=? usable_room s
         end).
 Proof.
-  intros [G1 G2]. unfold code_enough, cur_seg in *. rewrite G1.
+  intros [G1 G2]. unfold code_enough, usable_room, cur_seg, GUARD in *. rewrite G1.
   destruct c, (m_grown s) as [|g gs]; cbn [app]; try reflexivity;
-    match goal with |- (if ?b then _ else _) = _ => destruct b eqn:E end; try reflexivity; unfold PAGE in *; lia.
+    (match goal with |- (if ?b then _ else _) = _ => destruct b eqn:E end; [unfold PAGE in *; lia|]);
+    f_equal; apply Bool.eq_true_iff_eq; rewrite !Z.leb_le; lia.
 Qed.
 
 Lemma fresh_room s size rz : rz + 3 * PAGE <= size ->
@@ -142,19 +143,22 @@ Qed.
 
 Lemma rec_loop_good c n : forall frame rz size s o s' ok,
   0 <= frame -> frame + 2 * PAGE <= rz -> rz + 3 * PAGE <= size -> Good c s ->
-  rec_loop n frame rz size s = (o, s', ok) -> o = ONormal /\ ok = true.
+  rec_loop GUARD n frame rz size s = (o, s', ok) -> o = ONormal /\ ok = true.
 Proof.
   induction n as [|n IH]; intros frame rz size s o s' ok Hf Hrz Hsz HG H; cbn [rec_loop] in H.
   - injection H as <- <- <-. auto.
   - rewrite (code_enough_good c s rz HG) in H.
-    destruct (match c, m_grown s with CThread, [] => false | _, _ => rz <=? m_sp s - g_lim (cur_seg s) end) eqn:Ed.
-    + assert (Hrem : rz <= m_sp s - g_lim (cur_seg s)) by (destruct c, (m_grown s); try discriminate; lia).
+    destruct (match c, m_grown s with CThread, [] => false | _, _ => rz <=? usable_room s end) eqn:Ed.
+    + assert (Hrem : rz <= usable_room s) by (destruct c, (m_grown s); try discriminate; lia).
+      assert (Hroom0 : (rz <=? usable_room s) = true) by lia.
+      unfold usable_room in Hrem.
       assert (HG1 : Good c (set_sp s (m_sp s - frame))).
       { apply Good_set_sp; [exact HG|]. destruct HG as [_ G2]. cbn. unfold PAGE in *. lia. }
       destruct (m_sp (set_sp s (m_sp s - frame)) <? g_lim (cur_seg (set_sp s (m_sp s - frame))) + PAGE) eqn:Ef.
       { exfalso. destruct HG1 as [_ G2]. lia. }
-      destruct (rec_loop n frame rz size (set_sp s (m_sp s - frame))) as [[o2 s2] ok2] eqn:E.
-      destruct (IH _ _ _ _ _ _ _ Hf Hrz Hsz HG1 E) as [-> ->]. injection H as <- <- <-. auto.
+      destruct (rec_loop GUARD n frame rz size (set_sp s (m_sp s - frame))) as [[o2 s2] ok2] eqn:E.
+      destruct (IH _ _ _ _ _ _ _ Hf Hrz Hsz HG1 E) as [-> ->]. injection H as <- <- <-.
+      rewrite Hroom0. auto.
     + set (s0 := push_seg s (alloc s size)) in *.
       assert (HG0 : Good c s0) by (apply Good_push; exact HG).
       pose proof (fresh_room s size rz Hsz) as Hroom. fold s0 in Hroom.
@@ -162,42 +166,42 @@ Proof.
       { apply Good_set_sp; [exact HG0|]. unfold usable_room in Hroom. destruct HG0 as [_ G2]. unfold PAGE in *. lia. }
       destruct (m_sp (set_sp s0 (m_sp s0 - frame)) <? g_lim (cur_seg (set_sp s0 (m_sp s0 - frame))) + PAGE) eqn:Ef.
       { exfalso. destruct HG1 as [_ G2]. lia. }
-      destruct (rec_loop n frame rz size (set_sp s0 (m_sp s0 - frame))) as [[o2 s2] ok2] eqn:E.
+      destruct (rec_loop GUARD n frame rz size (set_sp s0 (m_sp s0 - frame))) as [[o2 s2] ok2] eqn:E.
       destruct (IH _ _ _ _ _ _ _ Hf Hrz Hsz HG1 E) as [-> ->]. injection H as <- <- <-.
-      split; [reflexivity|]. apply andb_true_iff. split; [|reflexivity]. unfold PAGE in *. lia.
+      split; [reflexivity|]. apply andb_true_iff. split; [|reflexivity]. lia.
 Qed.
 
-Definition evs_ok (c : ctx) (ev : list event) : Prop := Forall (fun e => ok_event false c e = true) ev.
+Definition evs_ok (c : ctx) (ev : list event) : Prop := Forall (fun e => ok_event true c e = true) ev.
 
 Lemma evs_ok_app c a b : evs_ok c a -> evs_ok c b -> evs_ok c (a ++ b).
 Proof. intros. apply Forall_app. auto. Qed.
 
 Lemma grow_event_ok c s rz size :
   Good c s -> 3 * PAGE <= rz -> rz + 3 * PAGE <= size ->
-  match code_enough s rz with
+  match code_enough GUARD s rz with
   | Some true =>
-      ok_event false c (EGrow (depth_of s) (enough_evt c s rz) false (reported_len c s) (in_back c s)
+      ok_event true c (EGrow (depth_of s) (enough_evt c s rz) false (reported_len c s) (in_back c s)
                               (rz <=? usable_room s)) = true
   | Some false =>
       let s1 := push_seg s (alloc s size) in
-      ok_event false c (EGrow (depth_of s) (enough_evt c s rz) true (reported_len c s1) (in_back c s1)
+      ok_event true c (EGrow (depth_of s) (enough_evt c s rz) true (reported_len c s1) (in_back c s1)
                               (rz <=? usable_room s1)) = true
   | None => False
   end.
 Proof.
   intros HG Hrz Hsz. rewrite (code_enough_good c s rz HG). pose proof HG as [G1 G2].
   pose proof (fresh_room s size rz Hsz) as Hroom. pose proof (Good_push c s size HG) as [P1 P2].
-  unfold ok_event, enough_evt, depth_of, reported_len, in_back. cbn [push_seg m_rec m_grown m_sp].
+  unfold ok_event, enough_evt, depth_of, reported_len, in_back, usable_room in *. cbn [push_seg m_rec m_grown m_sp].
   unfold cur_seg in *. rewrite G1.
   destruct c, (m_grown s) as [|g gs] eqn:Eg; cbn [app length];
-    try (destruct (rz <=? m_sp s - g_lim _) eqn:Ed); cbn [negb Bool.eqb orb andb];
+    try (destruct (rz <=? m_sp s - (g_lim _ + PAGE)) eqn:Ed); cbn [negb Bool.eqb orb andb];
     repeat (apply andb_true_iff; split); try reflexivity; try lia;
     cbn [push_seg m_grown m_sp alloc g_lim g_top] in *; try rewrite app_length; cbn [length]; try lia.
   all: unfold PAGE, OVH in *; lia.
 Qed.
 
 Lemma exec_good c : forall p s o s' ev,
-  wf_prog p = true -> Good c s -> exec c p s = (o, s', ev) -> o <> OFault /\ evs_ok c ev.
+  wf_prog p = true -> Good c s -> exec GUARD c p s = (o, s', ev) -> o <> OFault /\ evs_ok c ev.
 Proof.
   induction p as [|rem body IHb next IHn|rz size v body IHb next IHn| |body IHb next IHn|next IHn|n frame rz size next IHn];
     intros s o s' ev Hwf HG H; cbn [exec] in H; cbn [wf_prog] in Hwf.
@@ -209,65 +213,65 @@ Proof.
       apply Good_set_sp; [exact HG|]. destruct HG as [_ G2]. unfold PAGE in *. lia. }
     assert (Hsf : same_frame s (set_sp s1 (m_sp s))).
     { unfold s1. destruct (_ <? _); repeat split. }
-    destruct (exec c body s1) as [[o2 s2] ev2] eqn:E2.
+    destruct (exec GUARD c body s1) as [[o2 s2] ev2] eqn:E2.
     destruct (IHb _ _ _ _ Hwb HG1 E2) as [Hnf2 Hev2].
-    pose proof (exec_restores c body s1 o2 s2 ev2 E2 Hnf2) as Hr.
+    pose proof (exec_restores GUARD c body s1 o2 s2 ev2 E2 Hnf2) as Hr.
     assert (HG2 : Good c (set_sp s2 (m_sp s))).
     { eapply Good_same; [|exact HG]. eapply same_frame_trans; [exact Hsf|].
       destruct Hr as (A1 & A2 & A3 & A4). repeat split; cbn [set_sp m_base m_grown m_rec m_sp]; assumption. }
     destruct o2; try contradiction.
-    + destruct (exec c next (set_sp s2 (m_sp s))) as [[o3 s3] ev3] eqn:E3. injection H as <- <- <-.
+    + destruct (exec GUARD c next (set_sp s2 (m_sp s))) as [[o3 s3] ev3] eqn:E3. injection H as <- <- <-.
       destruct (IHn _ _ _ _ Hwn HG2 E3) as [Hnf3 Hev3]. split; [exact Hnf3 | apply evs_ok_app; assumption].
     + injection H as <- <- <-. split; [discriminate | exact Hev2].
   - apply andb_true_iff in Hwf as [Hwf Hwn]. apply andb_true_iff in Hwf as [Hwf Hwb].
     apply andb_true_iff in Hwf as [Hrz Hsz].
     pose proof (grow_event_ok c s rz size HG ltac:(lia) ltac:(lia)) as Hev.
-    destruct (code_enough s rz) as [[|]|]; [| |contradiction].
-    + destruct (exec c body s) as [[o2 s2] ev2] eqn:E2.
+    destruct (code_enough GUARD s rz) as [[|]|]; [| |contradiction].
+    + destruct (exec GUARD c body s) as [[o2 s2] ev2] eqn:E2.
       destruct (IHb _ _ _ _ Hwb HG E2) as [Hnf2 Hev2].
-      pose proof (exec_restores c body s o2 s2 ev2 E2 Hnf2) as Hr.
+      pose proof (exec_restores GUARD c body s o2 s2 ev2 E2 Hnf2) as Hr.
       assert (HG2 : Good c s2) by (eapply Good_same; eauto).
       destruct o2; try contradiction.
-      * destruct (exec c next s2) as [[o3 s3] ev3] eqn:E3. injection H as <- <- <-.
+      * destruct (exec GUARD c next s2) as [[o3 s3] ev3] eqn:E3. injection H as <- <- <-.
         destruct (IHn _ _ _ _ Hwn HG2 E3) as [Hnf3 Hev3]. split; [exact Hnf3|].
         constructor; [exact Hev|]. apply evs_ok_app; [exact Hev2|]. constructor; [reflexivity | exact Hev3].
       * injection H as <- <- <-. split; [discriminate|]. constructor; assumption.
     + set (s1 := push_seg s (alloc s size)) in *.
       assert (HG1 : Good c s1) by (apply Good_push; exact HG).
-      destruct (exec c body s1) as [[o2 s2] ev2] eqn:E2.
+      destruct (exec GUARD c body s1) as [[o2 s2] ev2] eqn:E2.
       destruct (IHb _ _ _ _ Hwb HG1 E2) as [Hnf2 Hev2].
-      pose proof (exec_restores c body s1 o2 s2 ev2 E2 Hnf2) as (A1 & A2 & A3 & A4).
+      pose proof (exec_restores GUARD c body s1 o2 s2 ev2 E2 Hnf2) as (A1 & A2 & A3 & A4).
       assert (HG2 : Good c (pop_seg s2 (m_sp s))).
       { eapply Good_same; [|exact HG].
         repeat split; cbn [pop_seg m_base m_grown m_rec m_sp]; try rewrite A1; try rewrite A2; try rewrite A3; reflexivity. }
       destruct o2; try contradiction.
-      * destruct (exec c next (pop_seg s2 (m_sp s))) as [[o3 s3] ev3] eqn:E3. injection H as <- <- <-.
+      * destruct (exec GUARD c next (pop_seg s2 (m_sp s))) as [[o3 s3] ev3] eqn:E3. injection H as <- <- <-.
         destruct (IHn _ _ _ _ Hwn HG2 E3) as [Hnf3 Hev3]. split; [exact Hnf3|].
         constructor; [exact Hev|]. apply evs_ok_app; [exact Hev2|]. constructor; [reflexivity | exact Hev3].
       * injection H as <- <- <-. split; [discriminate|]. constructor; assumption.
   - injection H as <- <- <-. split; [discriminate | constructor].
   - apply andb_true_iff in Hwf as [Hwb Hwn].
-    destruct (exec c body s) as [[o2 s2] ev2] eqn:E2.
+    destruct (exec GUARD c body s) as [[o2 s2] ev2] eqn:E2.
     destruct (IHb _ _ _ _ Hwb HG E2) as [Hnf2 Hev2].
-    pose proof (exec_restores c body s o2 s2 ev2 E2 Hnf2) as Hr.
+    pose proof (exec_restores GUARD c body s o2 s2 ev2 E2 Hnf2) as Hr.
     assert (HG2 : Good c s2) by (eapply Good_same; eauto).
     destruct o2; try contradiction.
-    + destruct (exec c next s2) as [[o3 s3] ev3] eqn:E3. injection H as <- <- <-.
+    + destruct (exec GUARD c next s2) as [[o3 s3] ev3] eqn:E3. injection H as <- <- <-.
       destruct (IHn _ _ _ _ Hwn HG2 E3) as [Hnf3 Hev3]. split; [exact Hnf3 | apply evs_ok_app; assumption].
-    + destruct (exec c next s2) as [[o3 s3] ev3] eqn:E3. injection H as <- <- <-.
+    + destruct (exec GUARD c next s2) as [[o3 s3] ev3] eqn:E3. injection H as <- <- <-.
       destruct (IHn _ _ _ _ Hwn HG2 E3) as [Hnf3 Hev3]. split; [exact Hnf3|].
       apply evs_ok_app; [exact Hev2|]. constructor; [reflexivity | exact Hev3].
-  - destruct (exec c next s) as [[o3 s3] ev3] eqn:E3. injection H as <- <- <-.
+  - destruct (exec GUARD c next s) as [[o3 s3] ev3] eqn:E3. injection H as <- <- <-.
     destruct (IHn _ _ _ _ Hwf HG E3) as [Hnf3 Hev3]. split; [exact Hnf3|]. constructor; [|exact Hev3].
     destruct HG as [G1 _]. unfold ok_event, reported_len, depth_of. rewrite G1.
     destruct c; [reflexivity|]. rewrite app_length. cbn [length]. lia.
   - apply andb_true_iff in Hwf as [Hwf Hwn]. apply andb_true_iff in Hwf as [Hwf Hsz].
     apply andb_true_iff in Hwf as [Hf Hrz].
-    destruct (rec_loop n frame rz size s) as [[o2 s2] ok2] eqn:E2.
+    destruct (rec_loop GUARD n frame rz size s) as [[o2 s2] ok2] eqn:E2.
     destruct (rec_loop_good c n frame rz size s o2 s2 ok2 ltac:(lia) ltac:(lia) ltac:(lia) HG E2) as [-> ->].
-    pose proof (rec_loop_restores n frame rz size s _ _ _ E2 ltac:(discriminate)) as Hr.
+    pose proof (rec_loop_restores GUARD n frame rz size s _ _ _ E2 ltac:(discriminate)) as Hr.
     assert (HG2 : Good c s2) by (eapply Good_same; eauto).
-    destruct (exec c next s2) as [[o3 s3] ev3] eqn:E3. injection H as <- <- <-.
+    destruct (exec GUARD c next s2) as [[o3 s3] ev3] eqn:E3. injection H as <- <- <-.
     destruct (IHn _ _ _ _ Hwn HG2 E3) as [Hnf3 Hev3]. split; [exact Hnf3|]. constructor; [reflexivity | exact Hev3].
 Qed.
 
@@ -280,22 +284,37 @@ Qed.
 Lemma forallb_Forall {A} (f : A -> bool) l : Forall (fun x => f x = true) l -> forallb f l = true.
 Proof. intros H. apply forallb_forall. rewrite Forall_forall in H. exact H. Qed.
 
-Theorem bookkeeping_ok c stack p :
-  wf_C23 c stack p = true -> ok_weak_C23 c (run_C23 c stack p) = true.
+(** the whole property on every well-formed tree *)
+Theorem holds c stack p : wf_C23 c stack p = true -> ok_C23 c (run_C23 c stack p) = true.
 Proof.
   intros Hwf. unfold wf_C23 in Hwf. apply andb_true_iff in Hwf as [Hst Hwp].
-  unfold ok_weak_C23, ok_gen, run_C23.
-  destruct (exec c p (init c stack)) as [[o s'] ev] eqn:E.
+  unfold ok_C23, ok_gen, run_C23, run_gen.
+  destruct (exec GUARD c p (init c stack)) as [[o s'] ev] eqn:E.
   destruct (exec_good c p _ _ _ _ Hwp (init_good c stack ltac:(lia)) E) as [Hnf Hev].
   apply andb_true_iff. split.
   - apply forallb_Forall. apply Forall_app. split; [exact Hev|]. destruct o; try contradiction; repeat constructor.
   - unfold ends_well. rewrite rev_app_distr. destruct o; try contradiction; reflexivity.
 Qed.
 
-Theorem bookkeeping_restored c p s o s' ev :
-  exec c p s = (o, s', ev) -> o <> OFault ->
+Lemma weak_of_strict c e : ok_event true c e = true -> ok_event false c e = true.
+Proof.
+  destruct e; cbn [ok_event]; auto. destruct grew; auto.
+  intros H. apply andb_true_iff in H as [H _]. rewrite H. reflexivity.
+Qed.
+
+Theorem bookkeeping_ok c stack p :
+  wf_C23 c stack p = true -> ok_weak_C23 c (run_C23 c stack p) = true.
+Proof.
+  intros Hwf. pose proof (holds c stack p Hwf) as H.
+  unfold ok_C23, ok_weak_C23, ok_gen in *. apply andb_true_iff in H as [H He].
+  apply andb_true_iff. split; [|exact He].
+  rewrite forallb_forall in *. intros e Hin. apply weak_of_strict. exact (H e Hin).
+Qed.
+
+Theorem bookkeeping_restored gd c p s o s' ev :
+  exec gd c p s = (o, s', ev) -> o <> OFault ->
   m_rec s' = m_rec s /\ m_grown s' = m_grown s /\ m_sp s' = m_sp s.
-Proof. intros H Hnf. destruct (exec_restores c p s o s' ev H Hnf) as (_ & A2 & A3 & A4). auto. Qed.
+Proof. intros H Hnf. destruct (exec_restores gd c p s o s' ev H Hnf) as (_ & A2 & A3 & A4). auto. Qed.
 
 Theorem no_fault c stack p : wf_C23 c stack p = true -> ~ In EFault (run_C23 c stack p).
 Proof.
@@ -303,26 +322,9 @@ Proof.
   apply andb_true_iff in H as [H _]. rewrite forallb_forall in H. specialize (H _ Hin). discriminate.
 Qed.
 
-Lemma strict_of_weak c e : ok_event false c e = true -> guard_window e = false -> ok_event true c e = true.
-Proof.
-  destruct e; cbn [ok_event guard_window]; auto.
-  destruct grew; auto. destruct room; [auto | discriminate].
-Qed.
-
-Theorem holds_outside c stack p :
-  wf_C23 c stack p = true -> no_defect_C23 c stack p = true -> ok_C23 c (run_C23 c stack p) = true.
-Proof.
-  intros Hwf Hnd. pose proof (bookkeeping_ok c stack p Hwf) as H.
-  unfold ok_C23, ok_weak_C23, ok_gen in *. apply andb_true_iff in H as [H He].
-  apply andb_true_iff. split; [|exact He].
-  unfold no_defect_C23, defect_C23_red_zone_counts_guard_page in Hnd. apply negb_true_iff in Hnd.
-  rewrite forallb_forall in *. intros e Hin. apply strict_of_weak; [exact (H e Hin)|].
-  destruct (guard_window e) eqn:Eg; [|reflexivity]. exfalso.
-  assert (existsb guard_window (run_C23 c stack p) = true) by (apply existsb_exists; eauto). congruence.
-Qed.
-
-Theorem refuted_red_zone_counts_guard_page :
-  exists c stack p, wf_C23 c stack p = true /\ ok_C23 c (run_C23 c stack p) = false.
+(** before the repair of finding red_zone_counts_guard_page a callback run in place could lack up to a page of its red zone *)
+Theorem refuted_before_repair :
+  exists c stack p, wf_C23 c stack p = true /\ ok_C23 c (old_run_C23 c stack p) = false.
 Proof.
   exists CCo, 131072, (PPos (32768 + 2048) (PGrow 32768 131072 1 PNil PNil) PNil).
   split; vm_compute; reflexivity.
@@ -335,14 +337,14 @@ Proof.
   apply andb_true_iff in H as [H _]. rewrite forallb_forall in H. exact (H _ Hin).
 Qed.
 
-(** a callback that was moved to a fresh segment has the red zone (guard page not counted); every
-    callback runs inside the last segment the coroutine reports *)
-Theorem room_on_fresh_segment c stack p d en grew len inb r :
+(** every callback runs inside the last segment the coroutine reports and has the red zone of
+    usable bytes (guard page not counted), moved to a fresh segment or not *)
+Theorem room_everywhere c stack p d en grew len inb r :
   wf_C23 c stack p = true -> In (EGrow d en grew len inb r) (run_C23 c stack p) ->
-  inb = true /\ (grew = true -> r = true).
+  inb = true /\ r = true.
 Proof.
-  intros Hwf Hin. pose proof (bookkeeping_ok c stack p Hwf) as H. unfold ok_weak_C23, ok_gen in H.
+  intros Hwf Hin. pose proof (holds c stack p Hwf) as H. unfold ok_C23, ok_gen in H.
   apply andb_true_iff in H as [H _]. rewrite forallb_forall in H. specialize (H _ Hin). cbn [ok_event] in H.
   apply andb_true_iff in H as [H Hr]. apply andb_true_iff in H as [_ Hi]. split; [exact Hi|].
-  intros ->. exact Hr.
+  destruct grew; exact Hr.
 Qed.
